@@ -158,4 +158,53 @@ RendersCall(e) == e \notin {"CannotUnmock", "NoDefaultImpl"}
 NamesPattern(e) == e \in {"NoOutput", "WrongOrder", "WrongOrder2", "InputsNotMatched", "MoreThanOnce", "ExplicitPanic"}
 \* positions listed in the mismatch report of a rejecting scenario (guard-free patterns only)
 RejectedPositions(kinds, e) == IF Rejecting(e) /\ FirstLit(kinds) # 0 THEN {FirstLit(kinds) - 1} ELSE {}
+
+(***************************************************************************)
+(* C05: what the generated impl forwards (unimock_macros/src/unimock/      *)
+(* mod.rs def_method_impl, method.rs InputsDestructuring).                 *)
+(* A method shape: receiver, parameter kinds, return kind, async form,     *)
+(* api form, generics.  The argument at position i carries the value with  *)
+(* index i, so all values are pairwise distinct.                           *)
+(*  AnswerView: what the answer function receives (the caller's argument)  *)
+(*  MatcherView: what the input matcher sees: the same argument (by ref)    *)
+(*  After: the caller's variable after the call, for &mut parameters the   *)
+(*         answer writes through                                           *)
+(***************************************************************************)
+Recvs == {"ref", "mut", "own", "rc", "arc", "pin"}
+ParamKinds == {"u8", "string", "ru8", "str", "mu8", "mvec", "slice", "vec", "gen", "optstr", "pair", "rru8", "into"}
+AnswerView(k, i) ==
+  CASE k = "u8"     -> ToString(i)
+    [] k = "string" -> "s" \o ToString(i)
+    [] k = "ru8"    -> "&" \o ToString(i)
+    [] k = "rru8"   -> "&&" \o ToString(i)
+    [] k = "str"    -> "&s" \o ToString(i)
+    [] k = "mu8"    -> "&mut " \o ToString(i)
+    [] k = "mvec"   -> "&mut [" \o ToString(i) \o "]"
+    [] k = "slice"  -> "&[" \o ToString(i) \o "," \o ToString(i + 1) \o "]"
+    [] k = "vec"    -> "[" \o ToString(i) \o "," \o ToString(i + 1) \o "]"
+    [] k = "gen"    -> ToString(i)
+    [] k = "into"   -> "s" \o ToString(i)
+    [] k = "optstr" -> "Some(&k" \o ToString(i) \o ")"
+    [] OTHER        -> "(" \o ToString(i) \o "," \o ToString(i + 1) \o ")"
+\* the matcher receives a reference to the argument tuple; the rendering used by the generated
+\* programs (Show::show through method auto-deref) shows the referent, i.e. the argument itself
+MatcherView(k, i) == AnswerView(k, i)
+Writes(k) == k \in {"mu8", "mvec"}
+After(k, i) == IF k = "mu8" THEN ToString(i + 100) ELSE "[" \o ToString(i) \o "," \o ToString(i + 100) \o "]"
+RetKinds == {"u32", "string", "opt", "ref"}
+RetView(r) == CASE r = "u32" -> "4242" [] r = "string" -> "ret" [] r = "opt" -> "Some(7)" [] OTHER -> "&77"
+AsyncKinds == {"none", "asyncfn", "implfuture"}
+ApiForms == {"module", "flattened", "hidden"}
+\* what the attribute and Rust accept (measured, DESIGN Appendix G)
+ValidShape(sh) ==
+  /\ (sh.ret = "ref" => sh.recv \in {"ref", "mut", "pin"} /\ sh.async = "none")
+  /\ (sh.async = "implfuture" => sh.recv \notin {"mut", "pin"})
+  /\ (sh.api = "hidden" => sh.recv = "ref" /\ sh.ret # "ref" /\ \A i \in 1..Len(sh.params) : sh.params[i] \notin {"gen", "into"})
+  /\ (sh.async # "none" => \A i \in 1..Len(sh.params) : sh.params[i] \notin {"into"})
+  /\ Cardinality({ i \in 1..Len(sh.params) : sh.params[i] \in {"gen", "into"} }) <= 1
+Forward(sh) ==
+  [matcher |-> [i \in 1..Len(sh.params) |-> MatcherView(sh.params[i], i)],
+   answer  |-> [i \in 1..Len(sh.params) |-> AnswerView(sh.params[i], i)],
+   after   |-> [i \in 1..Len(sh.params) |-> IF Writes(sh.params[i]) THEN After(sh.params[i], i) ELSE "-"],
+   ret     |-> RetView(sh.ret)]
 =============================================================================
